@@ -59,9 +59,12 @@ impl RandomPolicy {
 
             res.iter().for_each(|record| match record {
                 Some(val) => {
-                    let len = val.1.len();
+                    let len = val.1.len() as u64;
                     debug!("Evicted: {} bytes from storage", len);
-                    usage = self.decr_mem_usage(len as u64);
+                    self.decr_mem_usage(len);
+                    // what was accounted before this record was added, less
+                    // what has been evicted since
+                    usage = usage.saturating_sub(len);
                 }
                 None => {}
             });
@@ -70,8 +73,15 @@ impl RandomPolicy {
     }
 
     fn decr_mem_usage(&self, value: u64) -> u64 {
+        // Saturating: a counter that wrapped below zero would wrap back on the
+        // next addition and look like free memory.
         self.memory_usage
-            .fetch_sub(value, atomic::Ordering::Release)
+            .fetch_update(
+                atomic::Ordering::Release,
+                atomic::Ordering::Relaxed,
+                |usage| Some(usage.saturating_sub(value)),
+            )
+            .unwrap_or(0)
     }
 
     /// Verification hook: the accounted memory usage (read without a scheduling point).
